@@ -122,7 +122,7 @@ func (e *eventV2) Redact() {
 }
 
 func (e *eventV2) Sign(signingName string, keyID KeyID, privateKey ed25519.PrivateKey) PDU {
-	eventJSON, err := signEvent(signingName, keyID, privateKey, e.eventJSON, e.roomVersion)
+	eventJSON, err := signEvent(signingName, keyID, privateKey, signableEventJSON(e.eventJSON), e.roomVersion)
 	if err != nil {
 		// This is unreachable for events created with EventBuilder.Build or NewEventFromUntrustedJSON
 		panic(fmt.Errorf("gomatrixserverlib: invalid event %v (%q)", err, string(e.eventJSON)))
